@@ -43,7 +43,7 @@ theorem addWriteColumns_frame (g : LGraph) (cols : List Column) : Frame g (addWr
 private theorem frame_replace_step (existing : List Node) (tgt : DS) (tp : DS × String) (g : LGraph) (sc : Column) :
     Frame g (
       let nc := Column.mk1 sc.raw (some tp)
-      if existing.contains nc.key || sc.raw == "*" then g
+      if sc.raw == "*" || (existing.contains nc.key && !(getSourceColumns g nc.key).isEmpty) then g
       else
         let g1 := g.addEdge (.ds tgt) nc.key .hasColumn none none (some (.col nc))
         let g2 := match sc.parent? with
@@ -65,9 +65,14 @@ private theorem frame_replace_step (existing : List Node) (tgt : DS) (tp : DS ×
 theorem replaceWildcard_frame (g : LGraph) (tgt : DS) (srcCols : List Column) (tw sw : Node)
     (htw : tw.isCol = true) (hsw : sw.isCol = true) : Frame g (replaceWildcard g tgt srcCols tw sw) := by
   unfold replaceWildcard
+  have key : ∀ (G : LGraph), Frame G (if (G.hasNode tw && (getSourceColumns G tw).isEmpty) = true then G.removeNode tw else G) := by
+    intro G
+    split
+    · exact Frame.removeNode _ _ htw
+    · exact Frame.refl _
   exact Frame.trans (Frame.trans
     (Frame.foldl _ srcCols g (fun sc _ g' => frame_replace_step _ tgt _ g' sc))
-    (frame_ite_removeNode _ tw htw)) (frame_ite_removeNode _ sw hsw)
+    (frame_ite_removeNode _ sw hsw)) (key _)
 
 private theorem frame_ite_replace (g : LGraph) (tgt : DS) (cols : List Column) (tw sw : Node)
     (htw : tw.isCol = true) (hsw : sw.isCol = true) :
@@ -100,10 +105,11 @@ theorem expandWildcard_frame (p : ProvView) (g : LGraph) : Frame g (expandWildca
 /-- order‑preserving insertion into a successor list (what `add_edge` does to `_succ[u]`) -/
 def pushU (acc : List Node) (k : Node) : List Node := if acc.contains k then acc else acc ++ [k]
 
-/-- one iteration of the loop of `_replace_wildcard` -/
+/-- one iteration of the loop of `_replace_wildcard` (D47 repaired: only a target column that already HAS a source is
+    skipped; one that is merely listed — known from metadata — is wired) -/
 def replaceStep (existing : List Node) (tgt : DS) (tp : DS × String) (g : LGraph) (sc : Column) : LGraph :=
   let nc := Column.mk1 sc.raw (some tp)
-  if existing.contains nc.key || sc.raw == "*" then g
+  if sc.raw == "*" || (existing.contains nc.key && !(getSourceColumns g nc.key).isEmpty) then g
   else
     let g := g.addEdge (.ds tgt) nc.key .hasColumn none none (some (.col nc))
     let g := match sc.parent? with
@@ -114,22 +120,30 @@ def replaceStep (existing : List Node) (tgt : DS) (tp : DS × String) (g : LGrap
 /-- `if graph.has_node(n): graph.remove_node(n)` -/
 def rmIf (g : LGraph) (n : Node) : LGraph := if g.hasNode n then g.removeNode n else g
 
+/-- the target wildcard goes only when nothing feeds it any more (D48 repaired) -/
+def rmIfUnfed (g : LGraph) (n : Node) : LGraph :=
+  if g.hasNode n && (getSourceColumns g n).isEmpty then g.removeNode n else g
+
 theorem replaceWildcard_eq (g : LGraph) (tgt : DS) (srcCols : List Column) (tw sw : Node) :
     replaceWildcard g tgt srcCols tw sw =
-      rmIf (rmIf (srcCols.foldl (replaceStep ((getTableColumns g tgt).map (·.key)) tgt (tgt, printedDS g tgt)) g) tw) sw := rfl
+      rmIfUnfed (rmIf (srcCols.foldl (replaceStep ((getTableColumns g tgt).map (·.key)) tgt (tgt, printedDS g tgt)) g) sw) tw := rfl
 
-/-- the loop skips a source column that is itself a wildcard or whose name the target already has -/
-def skipped (existing : List Node) (tp : DS × String) (sc : Column) : Bool :=
-  existing.contains (Column.mk1 sc.raw (some tp)).key || sc.raw == "*"
+/-- the target columns the expansion names, in the order of the source table's columns: every column but a wildcard -/
+def namedKeys (tp : DS × String) (srcCols : List Column) : List Node :=
+  (srcCols.filter (fun sc => !(sc.raw == "*"))).map (fun sc => (Column.mk1 sc.raw (some tp)).key)
 
-/-- the target columns the expansion creates, in the order of the source table's columns -/
-def freshKeys (existing : List Node) (tp : DS × String) (srcCols : List Column) : List Node :=
-  (srcCols.filter (fun sc => !skipped existing tp sc)).map (fun sc => (Column.mk1 sc.raw (some tp)).key)
+theorem pushU_mem (acc : List Node) (k : Node) (h : k ∈ acc) : pushU acc k = acc := by
+  unfold pushU; simp [h]
+
+theorem subset_pushU (acc : List Node) (k : Node) : ∀ x ∈ acc, x ∈ pushU acc k := by
+  intro x hx; unfold pushU; split
+  · exact hx
+  · simp [hx]
 
 private theorem outEdges_replaceStep (existing : List Node) (tgt : DS) (tp : DS × String) (g : LGraph) (sc : Column)
-    (h : ∀ sp, sc.parent? = some sp → sp.1 ≠ tgt) :
+    (h : ∀ sp, sc.parent? = some sp → sp.1 ≠ tgt) (hex : ∀ k ∈ existing, k ∈ g.outEdges (.ds tgt)) :
     (replaceStep existing tgt tp g sc).outEdges (.ds tgt) =
-      if skipped existing tp sc then g.outEdges (.ds tgt)
+      if sc.raw == "*" then g.outEdges (.ds tgt)
       else pushU (g.outEdges (.ds tgt)) (Column.mk1 sc.raw (some tp)).key := by
   have h1 : (g.addEdge (.ds tgt) (Column.mk1 sc.raw (some tp)).key .hasColumn none none
       (some (.col (Column.mk1 sc.raw (some tp))))).outEdges (.ds tgt) =
@@ -139,33 +153,50 @@ private theorem outEdges_replaceStep (existing : List Node) (tgt : DS) (tp : DS 
     by_cases hm : (Column.mk1 sc.raw (some tp)).key ∈ g.outEdges (.ds tgt)
     · simp [hm]
     · simp [hm]
-  unfold replaceStep skipped
-  by_cases hk : (existing.contains (Column.mk1 sc.raw (some tp)).key || sc.raw == "*") = true
-  · simp only [hk, if_true]
-  · simp only [hk, Bool.false_eq_true, if_false]
-    cases hp : sc.parent? with
-    | none =>
-      simp only
-      rw [outEdges_addEdge, if_neg (fun x => by cases x.1)]
-      exact h1
-    | some sp =>
-      have hsp : sp.1 ≠ tgt := h sp hp
-      simp only
-      rw [outEdges_addEdge, if_neg (fun x => by cases x.1), outEdges_addEdge,
-        if_neg (fun x => hsp (by cases x.1; rfl))]
-      exact h1
+  unfold replaceStep
+  by_cases hs : (sc.raw == "*") = true
+  · simp only [hs, Bool.true_or, if_true]
+  · simp only [hs, Bool.false_or, Bool.false_eq_true, if_false]
+    by_cases hk : (existing.contains (Column.mk1 sc.raw (some tp)).key &&
+        !(getSourceColumns g (Column.mk1 sc.raw (some tp)).key).isEmpty) = true
+    · -- skipped: the column is among the existing ones, hence already a successor of the target
+      simp only [hk, if_true]
+      have hmem : (Column.mk1 sc.raw (some tp)).key ∈ existing := by
+        have := (Bool.and_eq_true _ _).mp hk
+        simpa using this.1
+      exact (pushU_mem _ _ (hex _ hmem)).symm
+    · simp only [hk, Bool.false_eq_true, if_false]
+      cases hp : sc.parent? with
+      | none =>
+        simp only
+        rw [outEdges_addEdge, if_neg (fun x => by cases x.1)]
+        exact h1
+      | some sp =>
+        have hsp : sp.1 ≠ tgt := h sp hp
+        simp only
+        rw [outEdges_addEdge, if_neg (fun x => by cases x.1), outEdges_addEdge,
+          if_neg (fun x => hsp (by cases x.1; rfl))]
+        exact h1
 
 private theorem outEdges_replaceFold (existing : List Node) (tgt : DS) (tp : DS × String) :
     ∀ (srcCols : List Column) (g : LGraph), (∀ sc ∈ srcCols, ∀ sp, sc.parent? = some sp → sp.1 ≠ tgt) →
+      (∀ k ∈ existing, k ∈ g.outEdges (.ds tgt)) →
       (srcCols.foldl (replaceStep existing tgt tp) g).outEdges (.ds tgt) =
-        (freshKeys existing tp srcCols).foldl pushU (g.outEdges (.ds tgt))
-  | [], g, _ => rfl
-  | sc :: r, g, h => by
+        (namedKeys tp srcCols).foldl pushU (g.outEdges (.ds tgt))
+  | [], g, _, _ => rfl
+  | sc :: r, g, h, hex => by
     have hr : ∀ sc' ∈ r, ∀ sp, sc'.parent? = some sp → sp.1 ≠ tgt := fun sc' hm => h sc' (by simp [hm])
+    have hstep := outEdges_replaceStep existing tgt tp g sc (h sc (by simp)) hex
+    have hex' : ∀ k ∈ existing, k ∈ (replaceStep existing tgt tp g sc).outEdges (.ds tgt) := by
+      intro k hk
+      rw [hstep]
+      split
+      · exact hex k hk
+      · exact subset_pushU _ _ k (hex k hk)
     simp only [List.foldl_cons]
-    rw [outEdges_replaceFold existing tgt tp r _ hr, outEdges_replaceStep existing tgt tp g sc (h sc (by simp))]
-    unfold freshKeys
-    by_cases hk : skipped existing tp sc = true
+    rw [outEdges_replaceFold existing tgt tp r _ hr hex', hstep]
+    unfold namedKeys
+    by_cases hk : (sc.raw == "*") = true
     · simp [hk]
     · simp [hk]
 
@@ -184,35 +215,62 @@ private theorem mem_nodes_replaceFold (existing : List Node) (tgt : DS) (tp : DS
   | [], _, hn => hn
   | sc :: r, g, hn => mem_nodes_replaceFold existing tgt tp n r _ (mem_nodes_replaceStep existing tgt tp g sc n hn)
 
-/-- `star_exact`, holder level, for EVERY graph: after `_replace_wildcard(tgt, src_table_columns, tgt_wildcard,
-    src_wildcard)` the successor list of the target table is its old list with the source table's columns appended IN THEIR
-    ORDER — exactly those that are not wildcards and whose name the target does not have yet — and both wildcard nodes
-    taken out.  Hypotheses: the wildcards are column nodes of the graph; the source columns are not owned by the target
-    itself (the target is `write ∖ read`). -/
+/-- in a graph whose stored column objects agree with their nodes (`Props.C06.KeyPay`, an invariant of every builder
+    operation) the columns listed for a table are successors of the table -/
+theorem existing_sub (g : LGraph) (tgt : DS) (hkp : ∀ n c, g.payload n = some (.col c) → c.key = n) :
+    ∀ k ∈ (getTableColumns g tgt).map (·.key), k ∈ g.outEdges (.ds tgt) := by
+  intro k hk
+  obtain ⟨c, hc, rfl⟩ := List.mem_map.mp hk
+  unfold getTableColumns at hc
+  obtain ⟨n, hn, hcn⟩ := List.mem_filterMap.mp hc
+  have hno : n ∈ g.outEdges (.ds tgt) := (List.mem_filter.mp hn).1
+  -- the key object stored for node `n` has key `n`
+  cases hco : colOf g n with
+  | none => simp [hco] at hcn
+  | some col =>
+    simp only [hco] at hcn
+    split at hcn
+    · have hcc : col = c := Option.some.inj hcn
+      subst hcc
+      have : col.key = n := by
+        apply hkp n col
+        unfold colOf at hco
+        split at hco
+        · rename_i c' hp; cases hco; exact hp
+        · cases hco
+      rw [this]; exact hno
+    · cases hcn
+
+/-- `star_exact`, holder level, for EVERY graph (D47, D48 repaired): after `_replace_wildcard(tgt, src_table_columns,
+    tgt_wildcard, src_wildcard)` the successor list of the target table is its old list with the source table's columns
+    appended IN THEIR ORDER — every one that is not a wildcard; a name the target already lists keeps its place —, the
+    source wildcard taken out, and the target wildcard taken out exactly when no other wildcard feeds it any more.
+    Hypotheses: the wildcards are column nodes of the graph; the source columns are not owned by the target itself (the
+    target is `write ∖ read`); the stored column objects agree with their nodes (`Props.C06.KeyPay`). -/
 theorem star_exact (g : LGraph) (tgt : DS) (srcCols : List Column) (tw sw : Node)
-    (htw : tw.isCol = true) (hsw : sw.isCol = true) (htwN : tw ∈ g.nodes) (hswN : sw ∈ g.nodes)
-    (hsrc : ∀ sc ∈ srcCols, ∀ sp, sc.parent? = some sp → sp.1 ≠ tgt) :
-    (replaceWildcard g tgt srcCols tw sw).outEdges (.ds tgt) =
-      (((freshKeys ((getTableColumns g tgt).map (·.key)) (tgt, printedDS g tgt) srcCols).foldl pushU
-          (g.outEdges (.ds tgt))).filter (· ≠ tw)).filter (· ≠ sw) := by
+    (htw : tw.isCol = true) (hsw : sw.isCol = true) (hswN : sw ∈ g.nodes)
+    (hsrc : ∀ sc ∈ srcCols, ∀ sp, sc.parent? = some sp → sp.1 ≠ tgt)
+    (hkp : ∀ n c, g.payload n = some (.col c) → c.key = n) :
+    ∃ G : LGraph,
+      G = (srcCols.foldl (replaceStep ((getTableColumns g tgt).map (·.key)) tgt (tgt, printedDS g tgt)) g).removeNode sw ∧
+      (replaceWildcard g tgt srcCols tw sw).outEdges (.ds tgt) =
+        (if G.hasNode tw && (getSourceColumns G tw).isEmpty then
+          (((namedKeys (tgt, printedDS g tgt) srcCols).foldl pushU (g.outEdges (.ds tgt))).filter (· ≠ sw)).filter (· ≠ tw)
+        else ((namedKeys (tgt, printedDS g tgt) srcCols).foldl pushU (g.outEdges (.ds tgt))).filter (· ≠ sw)) := by
   have h1 : ∀ n : Node, n.isCol = true → (Node.ds tgt) ≠ n := by intro n hn e; subst e; cases hn
+  refine ⟨_, rfl, ?_⟩
   rw [replaceWildcard_eq]
   generalize hG : srcCols.foldl (replaceStep ((getTableColumns g tgt).map (·.key)) tgt (tgt, printedDS g tgt)) g = G
   have hfold := outEdges_replaceFold ((getTableColumns g tgt).map (·.key)) tgt (tgt, printedDS g tgt) srcCols g hsrc
+    (existing_sub g tgt hkp)
   rw [hG] at hfold
-  have htwG : tw ∈ G.nodes := by rw [← hG]; exact mem_nodes_replaceFold _ _ _ _ _ _ htwN
   have hswG : sw ∈ G.nodes := by rw [← hG]; exact mem_nodes_replaceFold _ _ _ _ _ _ hswN
-  have e1 : rmIf G tw = G.removeNode tw := by simp [rmIf, hasNode, htwG]
+  have e1 : rmIf G sw = G.removeNode sw := by simp [rmIf, hasNode, hswG]
   rw [e1]
-  by_cases hEq : sw = tw
-  · subst hEq
-    have : rmIf (G.removeNode sw) sw = G.removeNode sw := by
-      simp [rmIf, hasNode, removeNode]
-    rw [this, outEdges_removeNode _ _ _ (h1 _ hsw), hfold, List.filter_filter]
-    simp
-  · have hmem : sw ∈ (G.removeNode tw).nodes := (mem_nodes_removeNode G tw sw).mpr ⟨hswG, hEq⟩
-    have : rmIf (G.removeNode tw) sw = (G.removeNode tw).removeNode sw := by simp [rmIf, hasNode, hmem]
-    rw [this, outEdges_removeNode _ _ _ (h1 _ hsw), outEdges_removeNode _ _ _ (h1 _ htw), hfold]
+  unfold rmIfUnfed
+  split
+  · rw [outEdges_removeNode _ _ _ (h1 _ htw), outEdges_removeNode _ _ _ (h1 _ hsw), hfold]
+  · rw [outEdges_removeNode _ _ _ (h1 _ hsw), hfold]
 
 /-- the columns a provider lists for a table other than the target satisfy the hypothesis of `star_exact`, and the
     columns created are named exactly like the provider's (normalised) -/
@@ -960,5 +1018,33 @@ example : ((provColumns exProv (mkTable {} ["s", "t"] none).d (mkTable {} ["s", 
     (writeColObjs (targetHolder { prov := exProv } true ["s", "t"] none)).map (·.printed) = ["s.t.p", "s.t.q"] ∧
     (writeColObjs (targetHolder { prov := exProv } true ["s", "t"] (some [listColumn "q"]))).map (·.printed) = ["s.t.q"] := by
   decide +kernel
+
+/-! ### D47, D48 repaired: witnesses on the whole runner model -/
+
+/-- the (source, target) LINEAGE pairs between column nodes of a script's combined graph -/
+def linPairs (r : Except Err (LGraph × List LGraph)) : List (String × String) :=
+  match r with
+  | .ok (g, _) => (g.edges.filter (fun e => g.ety e.1 e.2 == some .lineage)).filterMap (fun e =>
+      match e.1, e.2 with | .col p _, .col q _ => some (p, q) | _, _ => none)
+  | .error _ => [("error", "error")]
+
+def starOver (frm : List Ast.FromExpr) : Ast.Stmt :=
+  .insert .insertInto false ["sa", "tgt"] none (.select false [.mk (.star []) none false] frm none [] none) false
+
+/-- D47 repaired: `insert into sa.tgt select * from sa.t1` with BOTH tables known under the same column names — the usual
+    staging copy — used to report NO column lineage at all (the target's columns, listed from metadata, counted as
+    "already there" and were skipped); now every column is wired -/
+theorem fixed_D47 :
+    linPairs (Runner.eval {} [("sa.t1", ["a", "b"]), ("sa.tgt", ["a", "b"])]
+      [starOver [.mk (.table ["sa", "t1"] none false) []]]) =
+    [("sa.t1.a", "sa.tgt.a"), ("sa.t1.b", "sa.tgt.b")] := by decide +kernel
+
+/-- D48 repaired: `select *` over a join of a KNOWN table and an UNKNOWN one — the unknown table keeps the wildcard pair it
+    has without metadata (it used to vanish together with the target wildcard when the known table was expanded) -/
+theorem fixed_D48 :
+    linPairs (Runner.eval {} [("sa.t1", ["a", "b"])]
+      [starOver [.mk (.table ["sa", "t1"] (some "x") false) [.mk "join" (.table ["sa", "t2"] (some "y") false)
+        (some (.bin "=" (.col ["x"] "a") (.col ["y"] "k"))) []]]]) =
+    [("sa.t2.*", "sa.tgt.*"), ("sa.t1.a", "sa.tgt.a"), ("sa.t1.b", "sa.tgt.b")] := by decide +kernel
 
 end SqlLineage.Props.C13
